@@ -308,6 +308,68 @@ func stubTable() map[string]stubFn {
 		in.mutexUnlock(fr, ptrCell(args[0]), "runlock")
 		return nil
 	}
+	// ---- sync.Map: a map with internally synchronised (sequentially consistent) operations ----
+	syncMap := func(in *Interp, fr *frame, recv Value) *MapV {
+		c := ptrCell(recv)
+		in.atomicSync(fr, c)
+		if in.syncMaps == nil {
+			in.syncMaps = map[*Value]*MapV{}
+		}
+		mv, ok := in.syncMaps[c]
+		if !ok {
+			in.nextMapID++
+			mv = &MapV{id: in.nextMapID}
+			in.syncMaps[c] = mv
+			if in.path != nil {
+				in.path.undo = append(in.path.undo, undoEntry{fn: func() { delete(in.syncMaps, c) }})
+			}
+		}
+		return mv
+	}
+	syncMapSet := func(in *Interp, fr *frame, mv *MapV, k, v Value) {
+		if i := in.mapFind(fr, mv, k); i >= 0 {
+			in.setCell(&mv.vals[i], v)
+			return
+		}
+		mv.keys = append(mv.keys, k)
+		mv.vals = append(mv.vals, v)
+		mv.live = append(mv.live, true)
+		n := len(mv.keys)
+		if in.path != nil {
+			in.path.undo = append(in.path.undo, undoEntry{fn: func() {
+				mv.keys, mv.vals, mv.live = mv.keys[:n-1], mv.vals[:n-1], mv.live[:n-1]
+			}})
+		}
+	}
+	m["(*sync.Map).Load"] = func(in *Interp, fr *frame, args []Value) Value {
+		mv := syncMap(in, fr, args[0])
+		if i := in.mapFind(fr, mv, args[1]); i >= 0 {
+			return Tuple{mv.vals[i], TrueT}
+		}
+		return Tuple{Iface{}, FalseT}
+	}
+	m["(*sync.Map).Store"] = func(in *Interp, fr *frame, args []Value) Value {
+		syncMapSet(in, fr, syncMap(in, fr, args[0]), args[1], args[2])
+		return nil
+	}
+	m["(*sync.Map).LoadOrStore"] = func(in *Interp, fr *frame, args []Value) Value {
+		mv := syncMap(in, fr, args[0])
+		if i := in.mapFind(fr, mv, args[1]); i >= 0 {
+			return Tuple{mv.vals[i], TrueT}
+		}
+		syncMapSet(in, fr, mv, args[1], args[2])
+		return Tuple{args[2], FalseT}
+	}
+	m["(*sync.Map).Delete"] = func(in *Interp, fr *frame, args []Value) Value {
+		mv := syncMap(in, fr, args[0])
+		if i := in.mapFind(fr, mv, args[1]); i >= 0 {
+			mv.live[i] = false
+			if in.path != nil {
+				in.path.undo = append(in.path.undo, undoEntry{fn: func() { mv.live[i] = true }})
+			}
+		}
+		return nil
+	}
 	m["(*sync.Once).Do"] = func(in *Interp, fr *frame, args []Value) Value {
 		in.onceDo(fr, ptrCell(args[0]), args[1])
 		return nil
